@@ -1,3 +1,4 @@
+import IceTie.AgentDispatch
 import IceProofs.AgentC02Step
 import IceTie.AgentInbound
 import IceTie.Order
@@ -484,5 +485,67 @@ theorem C02_code_stun_path (cacheHit valid writeFails : Bool) (n : Int64) (hasSe
 example : IceGen.portFitsInUint16 65535 = true ∧ IceGen.portFitsInUint16 65536 = false ∧ IceGen.portFitsInUint16 (-1) = false ∧
     IceGen.netAddrToAddrPort false false true false 65535 false = "a.AddrPort()" ∧
     IceGen.netAddrToAddrPort false true false false 70000 false = "zero" := by decide
+
+/-! ## Tie to the code (T, round 3): the inbound dispatch `handleInbound` / `handleInboundResponse` / `handleInboundRequest` and
+`sendBindingSuccess` (agent.go) are REGENERATED on every run (`IceGen.T_Round3`, effect mode) -/
+
+open IceTie.AgentDispatch in
+/-- `Agent.handleInbound`: nothing for nil arguments and for what `canHandleInbound` rejects; responses and requests go to their
+handlers; `seen(false)` (the liveness refresh) comes after the handler and only if it accepted the message; the model's gate and
+indication branch do the same -/
+theorem C02_code_handleInbound :
+    (∀ msgNil localNil method cls hasRemote respOk reqOk hasRemoteAfter,
+      IceGen.agent_handleInbound msgNil localNil method cls hasRemote respOk reqOk hasRemoteAfter
+        = if msgNil || localNil || !(IceGen.canHandleInbound method cls) then []
+          else if cls == 2 then c "handleInboundResponse" :: (if respOk && hasRemote then [seen] else [])
+          else if cls == 0 then c "handleInboundRequest" :: (if reqOk && hasRemoteAfter then [seen] else [])
+          else if hasRemote then [seen] else []) ∧
+    (∀ (a : Agent) (now : Nat) (l : Cand) (src : Nat) (m : Msg),
+      (m.method == 1 && (m.cls == 2 || m.cls == 0 || m.cls == 1)) = false → a.handleInbound now l src m = (a, [])) :=
+  ⟨handleInbound_tie, handleInbound_model_gate⟩
+
+example : IceGen.agent_handleInbound false false 1 0 true false false true = [IceTie.AgentDispatch.c "handleInboundRequest"] ∧
+    IceGen.agent_handleInbound false false 1 0 false false true true
+      = [IceTie.AgentDispatch.c "handleInboundRequest", IceTie.AgentDispatch.seen] ∧
+    IceGen.agent_handleInbound false false 1 3 true true true true = [] := by decide
+
+open IceTie.AgentDispatch in
+/-- `Agent.handleInboundResponse`: integrity under the remote password, then a known remote candidate, only then the selector;
+`Agent.handleInboundRequest`: USERNAME, then integrity under the local password — a request failing either has NO effect (code
+and model); then prflx discovery, the role-conflict gate, the selector -/
+theorem C02_code_inbound_gates :
+    (∀ integrityErr remoteNil, IceGen.agent_handleInboundResponse integrityErr remoteNil
+      = if !integrityErr && !remoteNil then ([c "selector.HandleSuccessResponse"], true) else ([], false)) ∧
+    (∀ userErr integrityErr remoteNil netErr prioErr newErr added roleErr sameRole,
+      IceGen.agent_handleInboundRequest userErr integrityErr remoteNil netErr prioErr newErr added roleErr sameRole
+        = if userErr || integrityErr then ([], ("nil", false))
+          else if remoteNil then
+            (if netErr then ([], ("nil", false))
+             else if newErr || !added then (prflxEffs prioErr newErr, ("nil", false))
+             else (prflxEffs prioErr newErr ++ (roleEffs roleErr sameRole).1, (roleEffs roleErr sameRole).2))
+          else roleEffs roleErr sameRole) ∧
+    (∀ (a : Agent) (now : Nat) (l : Cand) (src : Nat) (m : Msg), m.method = 1 → m.cls = 0 →
+      m.user ≠ some (a.localUfrag ++ ":" ++ a.remoteUfrag) ∨ m.key ≠ some a.localPwd → a.handleInbound now l src m = (a, [])) :=
+  ⟨handleInboundResponse_tie, handleInboundRequest_tie, handleInbound_model_request_unauthenticated⟩
+
+example : IceGen.agent_handleInboundRequest false true false false false false true true false = ([], ("nil", false)) ∧
+    IceGen.agent_handleInboundRequest false false false false false false true true false
+      = ([IceTie.AgentDispatch.c "selector.HandleBindingRequest"], ("remoteCandidate", true)) ∧
+    IceGen.agent_handleInboundResponse true false = ([], false) := by decide
+
+open IceTie.AgentDispatch in
+/-- `Agent.sendBindingSuccess`: the request's transaction, the remote candidate's address, the LOCAL password; the pair's
+response counter before the single `sendSTUN`; nothing is sent on a parse / build failure; the model emits exactly that datagram -/
+theorem C02_code_sendBindingSuccess :
+    (∀ parseErr buildErr hasPair, IceGen.agent_sendBindingSuccess parseErr buildErr hasPair
+      = if parseErr then []
+        else [c "attrs(m,BindingSuccess,XORMappedAddress(remote))", c "attrs+=(Integrity(localPwd),Fingerprint)"] ++
+          (if buildErr then [] else (if hasPair then [c "pair.UpdateResponseSent"] else []) ++ [c "sendSTUN"])) ∧
+    (∀ (a : Agent) (now : Nat) (m : Msg) (l r : Cand),
+      (a.sendSuccess now m l r).2 = [.dgram l.addr r.addr { cls := 2, tid := m.tid, key := some a.localPwd }]) :=
+  ⟨sendBindingSuccess_tie, sendSuccess_model⟩
+
+example : IceGen.agent_sendBindingSuccess true false true = [] ∧
+    (IceGen.agent_sendBindingSuccess false false true).length = 4 := by decide
 
 end IceProps.C02
